@@ -46,10 +46,18 @@ Inductive point :=
 (* Agent._execute_and_call: try: job.execute() finally: callback(self) *)
 | Job0 (j : Z) (q : bool) | Job1 (j : Z) (q : bool) | Job2 (j : Z) (q : bool)
 (* clear_queue, has_jobs, is_running, get_current, get_queued, request_stop, stop_job *)
-| Clear0 | Has0 | Has1 | Has2 | Isr0 (n : Z) | Isr1 (n : Z) | Isr2 (n : Z) | Cur0 | Qd0 | Stop0 (j : Z)
+| Clear0 | Clear1 | Has0 | Has1 | Has2 | Isr0 (n : Z) | Isr1 (n : Z) | Isr2 (n : Z) | Cur0 | Qd0 | Stop0 (j : Z)
 | Sj0 (n : Z) | Sj1 (n : Z) | Sj2 (n : Z) | Sj3 | Sj4 (n : Z) | Sj5 (n : Z) | Sj6 (a : Z).
 
 Definition pc := (point * kont)%type.
+
+(* which of the repaired methods the tree under test has (probed by the harness) *)
+Record variant := {
+  isr_once : bool;       (* is_running reads _active_agent once into a local (D40) / twice (pinned) *)
+  clear_locked : bool    (* clear_queue takes the controller's lock (D46) / is one unlocked clear (pinned) *)
+}.
+Definition pinned : variant := {| isr_once := false; clear_locked := false |}.
+Definition repaired : variant := {| isr_once := true; clear_locked := true |}.
 
 Definition enter (o : op) (r : list op) : pc :=
   match o with
@@ -84,8 +92,7 @@ Definition positive_num (v : val) : bool := match v with VNum n => 0 <? n | _ =>
 
 Section Code.
   Variable bodies : Z -> body.
-  (* is_running reads _active_agent once into a local (repaired tree) or twice (pinned tree) *)
-  Variable isr_once : bool.
+  Variable v : variant.
 
   Definition code (p : pc) : instr pc :=
     let (pt, k) := p in
@@ -162,8 +169,13 @@ Section Code.
         | BWait => Do (LFlagWait j) (fun _ => (Job2 j q, k))
         end
     | Job2 j q => Do (LMark mk_end (VRef j)) (fun _ => (if q then Done0 j else Bg0 j, k))
-    (* def clear_queue: self._queue.clear() *)
-    | Clear0 => Do (LDqClear 0) (fun _ => (RetV VNone, k))
+    (* def clear_queue: self._queue.clear()                       (pinned)
+       def clear_queue: acquire; try: self._queue.clear() finally: release   (D46) *)
+    | Clear0 =>
+        if clear_locked v
+        then Do (LAcquire 0) (fun _ => (Clear1, KRel k))
+        else Do (LDqClear 0) (fun _ => (RetV VNone, k))
+    | Clear1 => Do (LDqClear 0) (fun _ => (RelV VNone, k))
     (* def has_jobs: len(self._queue) > 0 or len(self._background) > 0 or self._active_agent is not None *)
     | Has0 => Do (LDqLen 0) (fun v => if positive_num v then (RetV (VBool true), k) else (Has1, k))
     | Has1 => Do (LDictLen 0) (fun v => if positive_num v then (RetV (VBool true), k) else (Has2, k))
@@ -171,7 +183,7 @@ Section Code.
     (* def is_running(name): if self._active_agent is not None and self._active_agent.name == name:
          return True;  return name in self._background *)
     | Isr0 n =>
-        if isr_once
+        if isr_once v
         then Do (LRead 0) (fun v => match v with
                                     | VRef a => if a =? n then (RetV (VBool true), k) else (Isr2 n, k)
                                     | _ => (Isr2 n, k)
@@ -218,6 +230,11 @@ Section Code.
   Definition run_model (clients : list (list op)) (choices : list Z) : config pc :=
     run_picks pc code 2000 (jc_init clients) choices.
 End Code.
+
+(* the job numbers a scenario creates (the property is about distinct jobs / names) *)
+Definition created (o : op) : list Z :=
+  match o with OAdd j | OInsert j | OSpawn j => [j] | _ => [] end.
+Definition created_jobs (clients : list (list op)) : list Z := flat_map (flat_map created) clients.
 
 (* what the controller's fields say *)
 Definition active_of (c : config pc) : val := fields (sh c) 0%nat.
